@@ -34,7 +34,7 @@
 //@@end
 //@@fn file=bytes.rs src=expanded scope="%SCOPE%" name=put_u8 rename=put_u8%SFX% xlate=plain props=C14
 //@subst /self\.put_u8_unchecked\(/ => self.put_u8_unchecked%SFX%(
-//@subst /self\.capacity\(\)/ => self.capacity%SFX%()
+//@subst? /self\.capacity\(\)/ => self.capacity%SFX%()
 //@contract
   requires old(self).inv(),
   ensures
@@ -65,7 +65,7 @@
 //@@end
 //@@fn file=bytes.rs src=expanded scope="%SCOPE%" name=put_slice rename=put_slice%SFX% xlate=plain props=C14
 //@subst /self\.put_slice_unchecked\(/ => self.put_slice_unchecked%SFX%(
-//@subst /self\.capacity\(\)/ => self.capacity%SFX%()
+//@subst? /self\.capacity\(\)/ => self.capacity%SFX%()
 //@contract
   requires old(self).inv(), slice@.len() <= isize::MAX as int, // Rust: no slice is larger than isize::MAX bytes
   ensures
@@ -109,7 +109,7 @@
 
 // ---- set_len / align_to / put / put_aligned ------------------------------------------------------------------------
 //@@fn file=bytes.rs src=expanded scope="%SCOPE%" name=set_len rename=set_len%SFX% xlate=plain props=C14
-//@subst /self\.capacity\(\)/ => self.capacity%SFX%()
+//@subst? /self\.capacity\(\)/ => self.capacity%SFX%()
 //@subst /\{\s*::core::panicking::panic_fmt\(format_args!\("length out of bounds"\)\);\s*\}\s*;/ => rt_panic_documented();
 //@subst /unsafe \{\s*core::ptr::write_bytes\(self\.as_mut_ptr\(\)\.add\((.+?)\), 0, (.+?)\)\s*\}\s*;/ => self.buf_write_bytes(\1, 0, \2);
 //@contract
@@ -145,7 +145,7 @@
       && final(self).len as int == p.off@ - old(self).off()), // [C14]
 //@@end
 //@@fn file=bytes.rs src=expanded scope="%SCOPE%" name=put rename=put%SFX% xlate=plain props=C14
-//@subst /self\.capacity\(\)/ => self.capacity%SFX%()
+//@subst? /self\.capacity\(\)/ => self.capacity%SFX%()
 //@subst /-> \(r: Result<&mut T, InsufficientBuffer>\)/ => -> (r: Result<(), InsufficientBuffer>)
 //@subst /let ptr = self\.as_mut_ptr\(\)\.add\((.+?)\)\.cast::<T>\(\);\s*ptr\.write\(val\);/ => self.buf_write_val::<T>(\1, val);
 //@subst /Ok\(&mut \*ptr\)/ => Ok(())
@@ -158,7 +158,7 @@
       && final(self).only_touched(*old(self), old(self).len as int, old(self).len as int + size_of::<T>() as int), // [C14]
 //@@end
 //@@fn file=bytes.rs src=expanded scope="%SCOPE%" name=put_aligned rename=put_aligned%SFX% xlate=plain props=C14
-//@subst /self\.capacity\(\)/ => self.capacity%SFX%()
+//@subst? /self\.capacity\(\)/ => self.capacity%SFX%()
 //@subst /self\.align_to::<T>\(\)/ => self.align_to%SFX%::<T>()
 //@subst /-> \(r: Result<&mut T, InsufficientBuffer>\)/ => -> (r: Result<(), InsufficientBuffer>)
 //@subst /let mut ptr = / => let ptr = 
